@@ -149,6 +149,11 @@ class PythonPrinter:
                 m2 = self._re_indent_keyword.match(line)
                 if m2:
                     self.indent += 1
+                    # an "except" or "else" clause may be followed by
+                    # another clause of the same statement, which has to
+                    # unindent it again
+                    if m2.group(1) in ("except", "else"):
+                        indentor = m2.group(1)
                     self.indent_detail.append(indentor)
 
     def close(self):
